@@ -18,19 +18,21 @@ CLAIMED = {
     'C04': ('bitwise ops, shifts with amounts 0..bits (scalar, per-lane, template), rotations by any amount', '§7 C04'),
     'C06': ('bit-counting functions, vector and scalar overloads, every element value incl. 64-bit', '§7 C06'),
     'C07': ('blend/keep/clear/min/max/clamp/abs/negate/average/midpoint/copysign', '§7 C07'),
-    'C08': ('loads, stores, gathers, scatters, array round trips, lane insert/extract: values moved and final memory', '§7 C08'),
+    'C08': ('loads, stores, gathers, scatters, array round trips, lane insert/extract: values moved, final memory, and no fault on valid input (footprint obligations shared with C09)', '§7 C08'),
     'C09': ('memory footprint of loads/stores/gathers/scatters from the executor access log, fault model per instruction', '§7 C09'),
     'C10': ('float + - * / sqrt and unary minus, all bit patterns x 4 rounding modes', '§7 C10'),
     'C11': ('ceil/floor/trunc/round/nearbyint/rint in every rounding mode; MXCSR control bits unchanged by every encoded function', '§7 C11'),
-    'C12': ('frexp/ldexp/scalbn/ilogb/logb/frac/fmax/fmin/fdim', '§7 C12'),
+    'C12': ('frexp/ldexp/scalbn/ilogb/logb/frac/fmax/fmin/fdim under round-to-nearest; ldexp/scalbn of 64-bit lanes by an exhaustive nine-way case split', '§7 C12, §12.6'),
     'C13': ('fpclassify/isnan/isinf/isfinite/isnormal/signbit and the quiet comparisons', '§7 C13'),
 }
 CLAIMED.update({
     'C05': ('div / % on every integer vector type: 8-bit lanes and code that really divides against bvudiv/bvsdiv (UF congruence); 32/64-bit long-division '
-            'emulations against the textbook restoring division REF (proof by generalisation at the early exits); 16-bit float-reciprocal routes and the AVX-512 '
-            'divpd route are attempted and reported undecided when the solvers do not finish; no scalar division by a possibly-zero lane is executed', '§7 C05'),
+            'emulations against the textbook restoring division REF (proof by generalisation at the early exits); the cvtt(fdiv(cvt,cvt)) routes (16-bit via float, '
+            '32-bit via double) through the stated exact-quotient lemma (DESIGN.md 12.6) with the x86 conversion range behaviour kept exact; whatever the solvers do not finish '
+            'is reported undecided; no scalar division by a possibly-zero lane is executed', '§7 C05, §12.6'),
     'C14': ('scalar Denominator<T>: numerator fully symbolic; divisor symbolic for 8-bit types, enumerated lattice otherwise; signed 32/64-bit full-range queries are '
-            'beyond every back end and are decided for all numerators within 2^12 of 0, MIN, MAX (stated bound)', '§7 C14'),
+            'beyond every back end and are decided for all numerators within 2^12 of 0, MIN, MAX (stated bound); the 128/64 division behind Denominator<int64_t> is '
+            'hunted per divisor bit length with symbolic d (bug hunting only, never counted as discharged)', '§7 C14, §12.7'),
     'C15': ('vector Denominators incl. the broadcast constructor, different lattice divisors per lane', '§7 C15'),
     'C16': ('every scalar overload (and the mixed-sign cmp_*) against the same oracle the vector lanes are decided against, under every scalar instruction-set selection', '§7 C16'),
     'C17': ('convert<>, converting constructors, mask conversions and bit_cast for every pair found in the headers', '§7 C17'),
@@ -41,8 +43,9 @@ PENDING = {}
 C19_TEXT = ('PARTIAL claim, decided by SAT over a symbolic model of the preprocessor conditionals (Capabilities/Detect/Verify/Sizes/Vectors include blocks) for all 2^22 '
             'subsets of feature macros: one macro implies what documentation and compiler both imply; no Verify static_assert reachable with matching flags; '
             'AVEL_AUTO_DETECT gives the same vector headers as naming the enabled macros; headers exist exactly under their documented macro; natural/max width '
-            'aliases name provided types. The clauses "every configuration compiles", "trivially copyable / sizeof", "every operation declared, defined and linkable" '
-            'have no input space for a solver and are NOT claimed (DESIGN.md section 10).')
+            'aliases name provided types. The clauses "every configuration compiles" and "trivially copyable / sizeof" have no input space for a solver and are NOT claimed '
+            '(DESIGN.md section 10). "Every operation declared, defined and linkable for every width" is covered only by an AUXILIARY stage that is not a solver result: a compile/link '
+            'enumeration of every generated wrapper (all properties, all template constants) per SIMD configuration, reported separately in the evidence.')
 
 def main():
     checks = []
@@ -68,7 +71,7 @@ def main():
         'engine': 'avelverif',
         'level_claimed': {'category': 'other', 'text': C19_TEXT, 'design_ref': '§7 C19, §10'},
         'level_note': 'Trusted: the preprocessor-conditional extractor in avelverif/macrologic.py, clang++-14 predefines as the compiler model (additivity spot-checked each run), z3.',
-        'technique': 'SAT/SMT over a symbolic model of the preprocessor conditionals (all macro subsets); native confirmation by compiling a translation unit',
+        'technique': 'SAT/SMT over a symbolic model of the preprocessor conditionals (all macro subsets); native confirmation by compiling a translation unit; plus an auxiliary (non-solver) compile/link enumeration for API parity across widths',
     })
     checks.sort(key=lambda c: c['property_id'])
     m = {
